@@ -44,18 +44,22 @@ impl Scheduler {
         if let Some(signal) = self.queue.next().await {
             debug!("next: {:?}", signal);
             match signal {
-                Signal::Task(task) if task.state().is_completed() => {
-                    // the task ended while it was waiting in the queue (e.g. its process was
-                    // aborted): there is nothing left to execute and its final state stays
-                    debug!("skip ended task: {:?}", task);
-                }
                 Signal::Task(task) => {
-                    let ctx = &task.create_context();
-                    task.exec(ctx).unwrap_or_else(|err| {
-                        eprintln!("error: {err}");
-                        task.set_err(&err.into());
-                        let _ = ctx.emit_error();
-                    });
+                    // not while a client action is working on the same process
+                    let proc = task.proc().clone();
+                    let _guard = proc.lock();
+                    if task.state().is_completed() {
+                        // the task ended while it was waiting in the queue (e.g. its process was
+                        // aborted): there is nothing left to execute and its final state stays
+                        debug!("skip ended task: {:?}", task);
+                    } else {
+                        let ctx = &task.create_context();
+                        task.exec(ctx).unwrap_or_else(|err| {
+                            eprintln!("error: {err}");
+                            task.set_err(&err.into());
+                            let _ = ctx.emit_error();
+                        });
+                    }
                 }
                 Signal::Terminal => {
                     #[cfg(feature = "verif")]
